@@ -93,6 +93,27 @@ def handle {K : Type} [Num K] [BEq K] (sc : Sc K) (op : String) : M String := do
     let dtF := q2dSagExplicit (fnOf f) (fnOf g) (fnOf h) fq gq
         (fun m => Num.ofInt (-(m : Int)) * sinm m) (fun m => Num.ofInt m * cosm m) [] ams bms u
     pure (out sc [z.1, z.2.1, z.2.2, formalDer sagU 0 u, formalDer sagU 1 u, dtF])
+  | "surf" =>
+    let kind ← tok
+    match kind with
+    | "conic" =>   -- c kappa rho phi
+      let c ← num sc; let _k ← num sc; let rho ← num sc; let phi ← num sc; done
+      pure (out sc [conicSag c (rho * rho) phi, conicSagDer c rho phi])
+    | "dircos" =>
+      let c ← num sc; let k ← num sc; let rho ← num sc; let phi ← num sc; done
+      pure (out sc [dirCosDer c k rho phi])
+    | "oac" =>     -- c kappa r s ct ctp phi psi
+      let c ← num sc; let k ← num sc; let r ← num sc; let s ← num sc; let ct ← num sc; let ctp ← num sc
+      let phi ← num sc; let psi ← num sc; done
+      let d := oacDer c k r s ct ctp phi
+      let e := oacSigmaInvDer c k r s ct ctp phi psi
+      pure (out sc [oacAgg r s ct, conicSag c (oacAgg r s ct) phi, d.1, d.2, oacSigma phi psi, e.1, e.2])
+    | "asm" =>
+      let a ← rep (num sc) 10; done
+      let g := fun i => nth a i
+      let z := q2dAndDer (g 0) (g 1) (g 2) (g 3) (g 4) (g 5) (g 6) (g 7) (g 8) (g 9)
+      pure (out sc [z.1, z.2.1, z.2.2])
+    | _ => failure
   | _ => failure
 
 def step (t : List String) : String :=
